@@ -1282,3 +1282,109 @@ Proof.
   do 5 (split; [vm_compute; reflexivity|]).
   eexists. split; [vm_compute; reflexivity|vm_compute; reflexivity].
 Qed.
+
+(* ------------------------------------------------------------------ oracle soundness *)
+Section ValInd.
+Variable P : val -> Prop.
+Hypothesis HP : forall k z, P (VP k z).
+Hypothesis HS : forall s, P (VStr s).
+Hypothesis HD : forall d, Forall (fun kv => P (snd kv)) d -> P (VData d).
+Hypothesis HQ : forall k l, P (VSeqP k l).
+Hypothesis HQS : forall l, P (VSeqStr l).
+Hypothesis HQD : forall l, Forall (Forall (fun kv => P (snd kv))) l -> P (VSeqData l).
+Fixpoint val_ind' (v : val) : P v :=
+  match v with
+  | VP k z => HP k z
+  | VStr s => HS s
+  | VData d =>
+    HD d ((fix go (d : list (Z * val)) : Forall (fun kv => P (snd kv)) d :=
+             match d with
+             | [] => Forall_nil _
+             | kv :: r => Forall_cons kv (val_ind' (snd kv)) (go r)
+             end) d)
+  | VSeqP k l => HQ k l
+  | VSeqStr l => HQS l
+  | VSeqData l =>
+    HQD l ((fix gol (l : list (list (Z * val))) : Forall (Forall (fun kv => P (snd kv))) l :=
+              match l with
+              | [] => Forall_nil _
+              | d :: r =>
+                Forall_cons d
+                  ((fix go (d : list (Z * val)) : Forall (fun kv => P (snd kv)) d :=
+                      match d with
+                      | [] => Forall_nil _
+                      | kv :: q => Forall_cons kv (val_ind' (snd kv)) (go q)
+                      end) d) (gol r)
+              end) l)
+  end.
+End ValInd.
+
+Lemma list_eqb_eq : forall {A} (eq : A -> A -> bool),
+  (forall x y, eq x y = true <-> x = y) -> forall a b, list_eqb eq a b = true <-> a = b.
+Proof.
+  intros A eq Heq. induction a as [|x r IH]; destruct b as [|y s]; cbn [list_eqb]; split; intros H;
+    try reflexivity; try discriminate.
+  - apply andb_prop in H as [H1 H2]. apply Heq in H1. apply IH in H2. congruence.
+  - inversion H. subst. apply andb_true_intro. split; [now apply Heq|now apply IH].
+Qed.
+Lemma zlist_eqb_eq : forall a b : list Z, list_eqb Z.eqb a b = true <-> a = b.
+Proof. apply list_eqb_eq. intros. apply Z.eqb_eq. Qed.
+
+Definition dyn_eqb (d d' : list (Z * val)) : bool :=
+  (fix go (d d' : list (Z * val)) : bool :=
+     match d, d' with
+     | [], [] => true
+     | (k, v) :: r, (k', v') :: r' => (k =? k') && val_eqb v v' && go r r'
+     | _, _ => false
+     end) d d'.
+
+Lemma dyn_eqb_eq : forall d, Forall (fun kv => forall b, val_eqb (snd kv) b = true <-> snd kv = b) d ->
+  forall d', dyn_eqb d d' = true <-> d = d'.
+Proof.
+  induction d as [|[k v] r IH]; intros HF d'; destruct d' as [|[k' v'] r']; unfold dyn_eqb in *; split; intros H;
+    try reflexivity; try discriminate.
+  - inversion HF as [|? ? Hv Hr]. subst. cbn [snd] in Hv.
+    apply andb_prop in H as [H H3]. apply andb_prop in H as [H1 H2].
+    apply Z.eqb_eq in H1. apply Hv in H2. apply (IH Hr) in H3. congruence.
+  - inversion HF as [|? ? Hv Hr]. subst. cbn [snd] in Hv. inversion H. subst.
+    rewrite Z.eqb_refl. cbn [andb]. apply andb_true_intro. split; [now apply Hv|now apply (IH Hr)].
+Qed.
+
+Theorem val_eqb_eq : forall a b, val_eqb a b = true <-> a = b.
+Proof.
+  induction a using val_ind'; intros b.
+  - destruct b; cbn [val_eqb]; split; intros H0; try discriminate.
+    + apply andb_prop in H0 as [H1 H2]. apply sk_eqb_eq in H1. apply Z.eqb_eq in H2. congruence.
+    + inversion H0. subst. now rewrite sk_eqb_refl, Z.eqb_refl.
+  - destruct b; cbn [val_eqb]; split; intros H0; try discriminate.
+    + apply zlist_eqb_eq in H0. congruence.
+    + inversion H0. subst. now apply zlist_eqb_eq.
+  - destruct b as [| |d'| | |]; try (cbn [val_eqb]; split; intros H0; discriminate).
+    change (val_eqb (VData d) (VData d')) with (dyn_eqb d d').
+    rewrite (dyn_eqb_eq d H d'). split; intros H0; congruence.
+  - destruct b; cbn [val_eqb]; split; intros H0; try discriminate.
+    + apply andb_prop in H0 as [H1 H2]. apply sk_eqb_eq in H1. apply zlist_eqb_eq in H2. congruence.
+    + inversion H0. subst. rewrite sk_eqb_refl. cbn [andb]. now apply zlist_eqb_eq.
+  - destruct b; cbn [val_eqb]; split; intros H0; try discriminate.
+    + apply (list_eqb_eq (list_eqb Z.eqb) zlist_eqb_eq) in H0. congruence.
+    + inversion H0. subst. now apply (list_eqb_eq (list_eqb Z.eqb) zlist_eqb_eq).
+  - destruct b as [| | | | |l']; try (cbn [val_eqb]; split; intros H0; discriminate).
+    assert (Hl : forall l', (fix gol (l l' : list (list (Z * val))) : bool :=
+                match l, l' with
+                | [], [] => true
+                | d :: r, d' :: r' => dyn_eqb d d' && gol r r'
+                | _, _ => false
+                end) l l' = true <-> l = l').
+    { induction H as [|d r Hd Hr IH]; intros l2; destruct l2 as [|d' r']; split; intros H0;
+        try reflexivity; try discriminate.
+      - apply andb_prop in H0 as [H1 H2]. apply (dyn_eqb_eq d Hd) in H1. apply IH in H2. congruence.
+      - inversion H0. subst. apply andb_true_intro. split; [now apply (dyn_eqb_eq d' Hd)|now apply IH]. }
+    change (val_eqb (VSeqData l) (VSeqData l')) with
+      ((fix gol (l l' : list (list (Z * val))) : bool :=
+          match l, l' with
+          | [], [] => true
+          | d :: r, d' :: r' => dyn_eqb d d' && gol r r'
+          | _, _ => false
+          end) l l').
+    rewrite (Hl l'). split; intros H0; congruence.
+Qed.
